@@ -1,6 +1,7 @@
 package priorityqueue
 
 import (
+	"encoding/json"
 	v "github.com/emirpasic/gods/v2/zzvsup"
 	"github.com/emirpasic/gods/v2/containers"
 	"github.com/emirpasic/gods/v2/trees/binaryheap"
@@ -33,4 +34,29 @@ func VHIter() {
 func VHSnap() {
 	c, _ := VGQueue()
 	containers.VSnapStep(containers.VSnap{C: c, Mutate: []func(){c.Clear, func() { c.Enqueue(v.Int("m")) }, func() { c.Dequeue() }}})
+}
+
+var _ = vl.Less
+
+func vJSON(c *Queue[int]) containers.VJSON {
+	return containers.VJSON{C: c, ToJSON: c.ToJSON, FromJSON: c.FromJSON,
+		Marshal: func() ([]byte, error) { return json.Marshal(c) },
+		Inv:     func() { binaryheap.VInv(c.heap) },
+		Step:    func() { c.Enqueue(v.Int("sx")); binaryheap.VInv(c.heap) },
+		Fresh:   func() containers.VJSON { return vJSON(NewWith[int](vl.Cmp)) },
+		Multiset: true, Ref: func(ks, xs []int) ([]int, []int) { return nil, xs },
+		Drain: func() []int { var out []int; for { x, ok := c.Dequeue(); if !ok { return out }; out = append(out, x) } },
+	}
+}
+
+// VHJSONRound: ToJSON / json.Marshal / FromJSON round trip from an arbitrary state (C11).
+func VHJSONRound() {
+	c, _ := VGQueue()
+	containers.VJSONRound(vJSON(c))
+}
+
+// VHJSONLoad: FromJSON of an arbitrary document into an arbitrary prior state (C12, C17).
+func VHJSONLoad() {
+	c, _ := VGQueue()
+	containers.VJSONLoad(vJSON(c))
 }
